@@ -191,6 +191,33 @@ def mapping_tree(rng):
     return root
 
 
+_DOLLAR_SERIAL = [0]
+
+
+def dollar_fault(rng, root):
+    """Give one key a value with a malformed or undefined '$' construct
+    (unique text each time): the text is rejected, and so must every
+    re-laid-out copy of it be - values are never touched by a rewrite."""
+    keys = []
+
+    def walk(n):
+        for it in n["items"]:
+            if it[0] == "k":
+                keys.append(it)
+            elif it[0] == "s":
+                walk(it[1])
+    walk(root)
+    if not keys:
+        return False
+    _DOLLAR_SERIAL[0] += 1
+    n = _DOLLAR_SERIAL[0]
+    rng.choice(keys)[2] = rng.choice(
+        ["pre%d ${app%d", "x%d$", "$-%d", "a%d $(ZCV_NOPE%d", "${q%d}$ z",
+         "$$ok%d ${", "$nosuchname%d", "${NoSuch%d}x", "v%d $("]) \
+        .replace("%d", str(n))
+    return True
+
+
 def run_shard(ctx):
     drng = ctx.rng("definify")
     for p in cc.pairs(ctx, N_MODELS[ctx.tier], TEXTS[ctx.tier]):
@@ -200,6 +227,9 @@ def run_shard(ctx):
             if rewrites.definify(drng, root):
                 text = texts.render(root)
                 ctx.res.count("with_defines")
+        if drng.random() < 0.1 and dollar_fault(drng, root):
+            text = texts.render(root)
+            ctx.res.count("with_dollar_fault")
         compare(ctx, p.schema, "family", text, root, {"model": p.model})
     # shipped components
     lschema = cc.load_schema(LOGGER_SCHEMA)
